@@ -1,6 +1,7 @@
 import StyluaModel.Model.StrLit
 import StyluaModel.Spec.StrVal
 import Driver.Util
+import Driver.ExprProto
 /-
 `modeld`: one request per line on stdin, one answer per line on stdout.
 The harness runs the real code on the same requests and diffs the answers.
@@ -53,6 +54,9 @@ def handle (line : String) : String :=
       match stringOfHex hex with
       | some s => hexOfChars (StrLit.rewriteNumber s.toList)
       | none => "bad-op"
+  | ["expr", v, entry, i, o] => Driver.ExprProto.handleExpr v entry i o
+  | ["faithful", i] => Driver.ExprProto.handleFaithful i
+  | ["semeq", i, o] => Driver.ExprProto.handleSem i o
   | _ => "bad-op"
 
 partial def loop (h : IO.FS.Stream) (out : IO.FS.Stream) : IO Unit := do
